@@ -77,7 +77,7 @@ impl Property for C11 {
                     }
                 }
             }),
-            Family::new("bursts", ctx.tier.pick(30, 2000), |_c, rng, emit| {
+            Family::new("bursts", ctx.tier.pick(30, 6000), |_c, rng, emit| {
                 for _ in 0..10 {
                     let n = 2 + rng.below(3);
                     let mut ops = vec![json!([0, rng.below(NVARIANTS)])];
@@ -89,7 +89,7 @@ impl Property for C11 {
                     }
                 }
             }),
-            Family::new("random-histories", ctx.tier.pick(40, 3000), |_c, rng, emit| {
+            Family::new("random-histories", ctx.tier.pick(40, 9000), |_c, rng, emit| {
                 for _ in 0..10 {
                     let n = 1 + rng.below(8);
                     let mut ops = vec![json!([0, rng.below(NVARIANTS)])];
